@@ -1160,3 +1160,57 @@ func (c *Ctx) entryGuardedBy(fn *Func, fld *types.Var, want bool, depth int) boo
 	}
 	return n > 0
 }
+
+// resolveValue follows an expression to where its value is written down: a local with a single definition stands for
+// that definition; a parameter of a literal that is invoked on the spot (go f(x), defer f(x), f(x) of an immediately
+// invoked literal) stands for the argument, read in the enclosing function. It returns the function in which the
+// resulting expression is to be read.
+func (f *Func) resolveValue(e ast.Expr) (*Func, ast.Expr) {
+	cur, x := f, e
+	for depth := 0; depth < 6; depth++ {
+		id, ok := ast.Unparen(x).(*ast.Ident)
+		if !ok {
+			return cur, x
+		}
+		o := cur.ObjOf(id)
+		if o == nil {
+			return cur, x
+		}
+		// a parameter of an on-the-spot literal (possibly of an enclosing literal)
+		bound := false
+		for lit := cur; lit != nil && lit.Lit != nil && lit.Parent != nil; lit = lit.Parent {
+			call, isCall := lit.Parent.ParentOf(lit.Lit).(*ast.CallExpr)
+			if !isCall {
+				if pe, isP := lit.Parent.ParentOf(lit.Lit).(*ast.ParenExpr); isP {
+					call, isCall = lit.Parent.ParentOf(pe).(*ast.CallExpr)
+				}
+			}
+			if !isCall || ast.Unparen(call.Fun) != ast.Expr(lit.Lit) {
+				continue
+			}
+			i := 0
+			for _, fld := range lit.Type.Params.List {
+				for _, nm := range fld.Names {
+					if lit.Info().Defs[nm] == o && i < len(call.Args) {
+						// assigned inside the literal? then only its first value is the argument: accept when the only writes
+						// are redefinitions by `:=` tuples (ctx, stop := f(ctx)), which read the argument on their right side
+						cur, x, bound = lit.Parent, call.Args[i], true
+					}
+					i++
+				}
+			}
+			if bound {
+				break
+			}
+		}
+		if bound {
+			continue
+		}
+		nx := cur.valueOf(x)
+		if nx == x {
+			return cur, x
+		}
+		x = nx
+	}
+	return cur, x
+}
